@@ -1,4 +1,65 @@
-import Sparrow.Model.Directivity
+import Sparrow.Proofs.DirectivityLemmas
+/-
+  C20 — Source directivity is applied per direction in the source's own frame.
+  Model: Sparrow/Model/Directivity.lean.
+-/
 namespace Sparrow.Props.C20
-theorem placeholder : True := trivial
+open Sparrow Vec3
+
+/-- **The looked-up direction is the geometric direction in the source's own frame.**
+    The azimuth/elevation route of `_get_metrics` (atan2, asin, then spherical → cartesian)
+    yields the unit vector `(⟨d,view⟩, ⟨d,up×view⟩, ⟨d,up⟩)/|d|` for `d = target - position`,
+    whenever `d` is not parallel to `up` (where the azimuth is undefined). -/
+theorem metrics_frame (pos view up target : Vec3 ℝ) (h : Orthonormal view up)
+    (hgen : (metricsLocal pos view up target).x ^ 2 + (metricsLocal pos view up target).z ^ 2 ≠ 0) :
+    sphToCart Real.cos Real.sin (metricsAngles pos view up target).1 (metricsAngles pos view up target).2 =
+      metricsDir pos view up target :=
+  Sparrow.metrics_frame pos view up target h hgen
+
+/-- It is a unit vector. -/
+theorem metricsDir_unit (pos view up target : Vec3 ℝ) (h : Orthonormal view up)
+    (hd : dot (sub target pos) (sub target pos) ≠ 0) :
+    dot (metricsDir pos view up target) (metricsDir pos view up target) = 1 :=
+  Sparrow.metricsDir_unit pos view up target h hd
+
+/-- **Rotating source orientation and scene together changes nothing.** For every map `Q` that
+    preserves differences, inner products and cross products (a proper rotation about any
+    point, or a translation composed with one): same looked-up direction. -/
+theorem metrics_rotation_covariant (Q : Vec3 ℝ → Vec3 ℝ) (Ql : Vec3 ℝ → Vec3 ℝ)
+    (hsub : ∀ a b, sub (Q a) (Q b) = Ql (sub a b))
+    (hdot : ∀ a b, dot (Ql a) (Ql b) = dot a b)
+    (hcross : ∀ a b, cross (Ql a) (Ql b) = Ql (cross a b))
+    (pos view up target : Vec3 ℝ) :
+    metricsDir (Q pos) (Ql view) (Ql up) (Q target) = metricsDir pos view up target :=
+  Sparrow.metrics_rotation_covariant Q Ql hsub hdot hcross pos view up target
+
+/-- The factor is the table entry of the nearest measured direction at the nearest measured
+    frequency … -/
+theorem directivity_lookup (nDir nFreq : Nat) (dirs : Nat → Vec3 ℝ) (freqs : Nat → ℝ)
+    (table : Nat → Nat → ℝ) (pos view up target : Vec3 ℝ) (f : ℝ) :
+    directivityFactor nDir nFreq dirs freqs table pos view up target f =
+      table (nearest dirs nDir (metricsDir pos view up target)) (nearestFreq nFreq freqs f) :=
+  Sparrow.directivity_lookup nDir nFreq dirs freqs table pos view up target f
+
+/-- … where "nearest frequency" is the first index minimising `|f_k - f|`. -/
+theorem nearestFreq_spec (n : Nat) (freqs : Nat → ℝ) (f : ℝ) (hn : 0 < n) :
+    nearestFreq n freqs f < n ∧ ∀ k, k < n → |freqs (nearestFreq n freqs f) - f| ≤ |freqs k - f| :=
+  Sparrow.nearestFreq_spec n freqs f hn
+
+/-- The factor multiplies every outgoing slot of the patch. -/
+theorem directivity_multiplies (g : Nat → ℝ) (e0 : Nat → Nat → ℝ) (j d : Nat) :
+    applyDirectivity (some g) e0 j d = e0 j d * g j :=
+  Sparrow.directivity_multiplies g e0 j d
+
+/-- A directivity that is 1 everywhere, or no directivity at all, reproduces the
+    omnidirectional result — patch energies and direct sound. -/
+theorem unit_directivity_identity (g : Nat → ℝ) (hg : ∀ j, g j = 1) (e0 : Nat → Nat → ℝ) (j d : Nat) (v : ℝ) :
+    applyDirectivity (some g) e0 j d = e0 j d ∧ applyDirectivityDirect (some (1 : ℝ)) v = v :=
+  Sparrow.unit_directivity_identity g hg e0 j d v
+
+
+theorem no_directivity_identity (e0 : Nat → Nat → ℝ) (j d : Nat) (v : ℝ) :
+    applyDirectivity none e0 j d = e0 j d ∧ applyDirectivityDirect none v = v :=
+  Sparrow.no_directivity_identity e0 j d v
+
 end Sparrow.Props.C20
